@@ -128,6 +128,7 @@ def run(ctx) -> None:
     ctx.rule(rule_writers)
     ctx.rule(rule_switch)
     ctx.rule(rule_fingerprint)
+    ctx.rule(rule_quick_info_twin)
     ctx.chk.assumptions = ["pickle's documented failure set; filelock.Timeout is a TimeoutError (OSError); FileLock gives mutual exclusion between processes",
                            "not decided: equality of cached and uncached answers (fingerprint completeness), N-process interleavings beyond lock discipline"]
 
@@ -211,6 +212,26 @@ def rule_fingerprint(ctx) -> None:
         probs.append("unchanged when device beta is removed")
     ctx.chk.decide(not probs, "C18.fingerprint", fn.qual, "the cache fingerprint depends on (mtime, size) of every devices/*/database.yaml and of the common defaults and on the set of device folders (6 model file systems)",
                    "; ".join(probs), "a rewritten database file changes the fingerprint", A.loc(DB, fn.node))
+
+
+def rule_quick_info_twin(ctx) -> None:
+    """Every path of _get_quick_info_db that builds a fresh quick-info database builds it from the same (completely loaded) database:
+    the answers with the cache disabled are the reference the property compares with, they must not come from a lazily loaded one."""
+    fn = ctx.own(DB, "DatabaseManager", "_get_quick_info_db")
+    builds = {}
+    for q in A.spaths(fn.node):
+        for c in q.calls("create"):
+            if norm(c.func) == "QuickDatabase.create" and c.args:
+                mode = "cache disabled" if q.assumes("SPSDK_CACHE_DISABLED", True) else "cache enabled"
+                builds.setdefault(mode, set()).add(norm(c.args[0]))
+    if set(builds) != {"cache disabled", "cache enabled"}:
+        raise AnalysisError(f"C18.quick-info-twin: constructions found only for {sorted(builds)}")
+    gd = ctx.own(DB, "DatabaseManager", "get_db")
+    dflt = {a.arg: norm(d) for a, d in zip(gd.node.args.args[-len(gd.node.args.defaults):], gd.node.args.defaults)} if gd.node.args.defaults else {}
+    full = {"cls.get_db(complete_load=True)", "cls.get_db(True)"} | ({"cls.get_db()"} if dflt.get("complete_load") == "True" else set())
+    ok = all(v <= full for v in builds.values())
+    ctx.chk.decide(ok and builds["cache disabled"] and builds["cache enabled"], "C18.quick-info-twin", fn.qual, "with and without the cache the quick-info database is created from a completely loaded database",
+                   f"{ {k: sorted(v) for k, v in builds.items()} }", "QuickDatabase.create(cls.get_db(complete_load=True)) on every path", A.loc(DB, fn.node))
 
 
 def rule_loads(ctx) -> None:
